@@ -38,9 +38,11 @@ def climb(items, ops):
     return parse(0, [0])
 
 
-def build_expr(ops, parens):
-    """parens: None | (i, j) -- operands i..j (inclusive) are enclosed in one pair of parentheses"""
+def build_expr(ops, parens, lits=None):
+    """parens: None | (i, j) -- operands i..j (inclusive) are enclosed in one pair of parentheses; lits: operand index -> literal"""
     atoms = [A.Var(n) for n in NAMES[: len(ops) + 1]]
+    for i, v in (lits or {}).items():
+        atoms[int(i)] = A.Lit(v, "float") if isinstance(v, float) else A.Lit(v)
     if parens is None:
         return climb(atoms, ops)
     i, j = parens
@@ -66,7 +68,7 @@ def real_shape(node):
 def make_program(inst):
     ops = inst["ops"]
     t = inst["type"]
-    e = build_expr(ops, tuple(inst["parens"]) if inst.get("parens") else None)
+    e = build_expr(ops, tuple(inst["parens"]) if inst.get("parens") else None, inst.get("lits"))
     params = [(t, n) for n in NAMES[: len(ops) + 1]]
     rt = t if LEVEL[shape(e)[0]] >= 4 or LEVEL[shape(e)[0]] <= 1 else "int"
     ctx = inst.get("ctx", "return")
@@ -209,6 +211,10 @@ def instances(tier, seed):
                 out.append(dict(ops=list(pair), type=t, parens=list(parens) if parens else None, layouts=(parens is None and t == "int")))
             for ctx in ("assign", "decl", "pluseq"):
                 out.append(dict(ops=list(pair), type=t, parens=None, ctx=ctx))
+            if t == "int":
+                # literal operands: a sign-like operator directly before a number must still be the binary operator in every layout
+                for lits in ({"1": 2}, {"2": 3}, {"0": 5, "2": 2}, {"1": 3, "2": 7}):
+                    out.append(dict(ops=list(pair), type=t, parens=None, lits=lits, layouts=True))
     triples = [tr for tr in itertools.product(OPS, repeat=3)]
     if tier == "quick":
         triples = rnd.sample(triples, 260)
